@@ -146,3 +146,110 @@ def check_C06(ctx):
         log("DRIFT (mechanism differs from TokenStore.tla, no property involved): %d reports, first: %s"
             % (len(tv.drifts), tv.drifts[0]))
     tv_verdict(ctx, tv, trace, "token-store MBT")
+
+
+# =========================================================================================== C07
+
+PEER_CFG = """SPECIFICATION Spec
+CONSTANTS
+  CAP = %(cap)d
+  TTL = 86400000
+  HASHES = {"h1", "h2"}
+  ADDRS = {%(addrs)s}
+  DELTAS = {%(deltas)s}
+  FILLS = {%(fills)s}
+  MAXSTEPS = %(steps)d
+  GEN = %(gen)s
+  RENEW_MOVES = %(moves)s
+%(invs)s
+CHECK_DEADLOCK FALSE
+"""
+PEER_INVS = "INVARIANT ChecksOK\nINVARIANT QueueSorted\nINVARIANT ViewsAgree\nINVARIANT Bounded"
+PEER_ADDRS = '"a4:1", "a4:2", "b4:1", "c6:1"'
+PEER_DELTAS = "1, 43200000, 86399999, 86400000, 86400001"
+
+
+def gen_peer_bulk(path, seed_, count):
+    """Seeded random behaviours for the production-size store (see check_C07)."""
+    import random
+    rnd = random.Random(seed_)
+    H = ["h1", "h2", "h3"]
+    DAY = 86400000
+    with open(path, "w") as f:
+        for b in range(count):
+            ops, fresh = [], 0
+            for _ in range(rnd.randint(8, 24)):
+                r = rnd.random()
+                if r < 0.30:
+                    n = rnd.choice([1, 2, 5, 100, 249, 250, 251, 499, 500, 501])
+                    ops.append({"op": "fill", "ih": rnd.choice(H), "n": n, "first": fresh})
+                    fresh += n
+                elif r < 0.45:
+                    ops.append({"op": "renew", "ih": rnd.choice(H), "k": rnd.choice([1, 2, 3, 7])})
+                elif r < 0.60:
+                    ops.append({"op": "add", "ih": rnd.choice(H), "addr": rnd.choice(["a4:1", "a4:2", "b4:1", "c6:1", "c6:2"])})
+                elif r < 0.80:
+                    ops.append({"op": "find", "ih": rnd.choice(H)})
+                else:
+                    ops.append({"op": "adv", "d": rnd.choice([1, 1000, 3600000, DAY // 2, DAY - 3600000, DAY - 1, DAY, DAY + 1,
+                                                               rnd.randint(1, DAY)])})
+            ops.append({"op": "find", "ih": "h1"})
+            ops.append({"op": "find", "ih": "h2"})
+            f.write(json.dumps(ops) + "\n")
+    return count
+
+
+def check_C07(ctx):
+    ctx.assumptions += [
+        "TLC and the CommunityModules are correct; tokio's paused clock drives the crate clock (H1)",
+        "component level only sees AnnounceStorage; the wire path (ports, family filter, 202) is covered by the node-level server traces",
+        "MC exhaustive for CAP=3 up to MAXSTEPS events; production CAP=500 covered by seeded random bulk behaviours",
+    ]
+    q = ctx.quick
+    res = vlib.tlc("mc/MC_PeerStore.tla", ctx.cfg("mc.cfg", PEER_CFG % dict(
+        cap=3, addrs=PEER_ADDRS, deltas=PEER_DELTAS, fills="", steps=5 if q else 7, gen="FALSE", moves="TRUE",
+        invs=PEER_INVS)), workers=8 if q else 16, timeout=600 if q else 3400, heap="8g" if q else "24g")
+    vlib.require_mc_ok(res, "MC_PeerStore")
+    ctx.add_mc("MC_PeerStore(CAP=3,steps=%d)" % (5 if q else 7), res)
+    neg = vlib.tlc("mc/MC_PeerStore.tla", ctx.cfg("neg.cfg", PEER_CFG % dict(
+        cap=3, addrs=PEER_ADDRS, deltas=PEER_DELTAS, fills="", steps=6, gen="FALSE", moves="FALSE",
+        invs=PEER_INVS)), workers=8, timeout=900)
+    if neg.no_error:
+        raise ToolError("vacuity guard: in-place renewal variant was not caught by MC_PeerStore")
+    # binding 1: all small behaviours (exhaustive) against the real store
+    beh = ctx.path("behaviours.ndjson")
+    g1 = vlib.tlc("mc/MC_PeerStore.tla", ctx.cfg("gen1.cfg", PEER_CFG % dict(
+        cap=3, addrs='"a4:1", "b4:1", "c6:1"', deltas="43200000, 86399999, 86400000, 86400001", fills="",
+        steps=4 if q else 5, gen="TRUE", moves="TRUE", invs="INVARIANT Emit")), workers=1, timeout=1800)
+    n1 = vlib.extract_replays(g1, beh + ".1")
+    # binding 2: production capacity -- seeded random bulk behaviours over the same operation alphabet
+    # (fill / renew / add / find / adv) crossing the 500-pair limit and the 24 h boundary over several days.
+    # (TLC -simulate on the CAP=500 model costs ~2 s per Fill successor; kept for the thorough MC only.)
+    n2 = gen_peer_bulk(beh + ".2", vlib.seed(), 12 if q else 120)
+    if not q:
+        g2 = vlib.tlc("mc/MC_PeerStore.tla", ctx.cfg("mc500.cfg", PEER_CFG % dict(
+            cap=500, addrs='"a4:1", "c6:1"', deltas="3600000, 86399999, 86400001",
+            fills="250, 499, 501", steps=8, gen="FALSE", moves="TRUE", invs="INVARIANT ChecksOK\nINVARIANT Bounded")),
+            workers=8, timeout=2400, simulate=2, depth=9, seed_=vlib.seed())
+        if g2.inv_violated:
+            raise ToolError("MC_PeerStore(CAP=500) simulate run violated %s" % g2.inv_violated)
+        ctx.add_mc("MC_PeerStore(CAP=500,simulate)", g2)
+    if n1 == 0 or n2 == 0:
+        raise ToolError("behaviour generation produced nothing (%d, %d)" % (n1, n2))
+    with open(beh, "w") as f:
+        for p in (beh + ".1", beh + ".2"):
+            f.write(open(p).read())
+    trace = ctx.path("trace.ndjson")
+    vlib.vh(["peers", "--in", beh, "--out", trace])
+    tv = vlib.validate_trace("trace/PeerTrace.tla", "trace/PeerTrace.cfg", trace, timeout=3000, heap="12g")
+    total, distinct = vlib.count_distinct_behaviours(beh)
+    nontrivial = sum(1 for line in open(beh) if '"find"' in line and ('"add"' in line or '"fill"' in line))
+    ctx.add_tv("peers", tv, total, min(distinct, nontrivial))
+    ctx.cov["rule"] = ("behaviours = all operation sequences of MC_PeerStore (CAP=3 alphabet) up to depth %d replayed on the "
+                       "real 500-pair store, plus %d seeded random behaviours with bulk fill/renew steps crossing the 500 "
+                       "limit and the 24 h boundary; non-trivial = at least one add/fill and one find" % (4 if q else 5, n2))
+    ctx.cov["samples"] = vlib.head_lines(beh + ".2", 1, 900) + vlib.head_lines(trace, 5)
+    if tv.drifts:
+        log("DRIFT (mechanism differs from PeerStore.tla, no property involved): %d reports, first: %s"
+            % (len(tv.drifts), tv.drifts[0]))
+    tv_verdict(ctx, tv, trace, "peer-store MBT")
